@@ -140,6 +140,22 @@ def directed_docs():
         return ir.Doc(types, params, tuple(conts or ()) + (root,))
 
     I = ir.IntEnc
+
+    def C_(left, op, value):
+        return ir.Condition(left, op, right_value=value, right_cal=False)
+    lvl5 = ir.Or((C_("TYPE", "==", "0"), C_("VERSION", "==", "0")))
+    lvl4 = ir.And((C_("PKT_LEN", ">=", "0"), lvl5))
+    lvl3 = ir.Or((C_("SEQ_FLGS", "==", "3"), lvl4))
+    lvl2 = ir.And((C_("VERSION", "<", "7"), lvl3))
+    lvl1 = ir.Or((C_("TYPE", "==", "1"), lvl2))
+    DEEP = ir.And((C_("PKT_APID", "==", "5"), lvl1))
+    SINGLE = ir.And((ir.Or((C_("PKT_APID", "==", "5"),)),))
+    SINGLE2 = ir.Or((ir.And((ir.Or((C_("TYPE", "==", "1"),)),)),))
+    GROUPS = ir.And((ir.Or((C_("PKT_APID", "==", "5"), C_("TYPE", "==", "1"))), ir.Or((C_("VERSION", "==", "0"), C_("SEQ_FLGS", "==", "3")))))
+
+    def ctx_type(*exprs):
+        return ir.PType("X_T", "float", I(8, "unsigned", False, None,
+                                          tuple(ir.ContextCal(ir.BoolExpr(e), ir.Poly(((float(k + 1), 1),))) for k, e in enumerate(exprs))))
     len_t = ir.PType("LEN_Type", "integer", I(4, "unsigned", False))
     len_p = ir.Param("LEN", "LEN_Type")
     le = (("p", "LEN"),)
@@ -165,6 +181,9 @@ def directed_docs():
         "ContextMatch/BooleanExpression": ir.PType("X_T", "float", I(8, "unsigned", False, None, (ir.ContextCal(ir.BoolExpr(ir.Or((ir.Condition("PKT_APID", "==", right_value="5", right_cal=False), ir.Condition("TYPE", "!=", right_param="VERSION", left_cal=False, right_cal=False)))), ir.Poly(((1.0, 1),))),))),
         "Condition/ParameterInstanceRef@useCalibratedValue=false(left)": ir.PType("X_T", "float", I(8, "unsigned", False, None, (ir.ContextCal(ir.BoolExpr(ir.Condition("PKT_APID", ">=", right_value="5", left_cal=False, right_cal=False)), ir.Poly(((1.0, 1),))),))),
         "Condition/ParameterInstanceRef@useCalibratedValue=false(right)": ir.PType("X_T", "float", I(8, "unsigned", False, None, (ir.ContextCal(ir.BoolExpr(ir.Condition("PKT_APID", ">=", right_param="TYPE", left_cal=True, right_cal=False)), ir.Poly(((1.0, 1),))),))),
+        "five levels of ANDed/ORed nesting": ctx_type(DEEP),
+        "single-member groups nested in each other": ctx_type(SINGLE, SINGLE2),
+        "groups whose only members are groups": ctx_type(GROUPS),
         "ANDed-in-ORed nesting": ir.PType("X_T", "float", I(8, "unsigned", False, None, (ir.ContextCal(ir.BoolExpr(ir.Or((ir.And((ir.Condition("PKT_APID", "==", right_value="5", right_cal=False), ir.Condition("TYPE", "==", right_value="1", right_cal=False))), ir.Condition("VERSION", "gt", right_value="2", right_cal=False)))), ir.Poly(((1.0, 1),))),))),
         "Enumeration (64-bit values a double cannot hold)": ir.PType("X_T", "enumerated", I(64, "unsigned"), None,
                                                                      ((2 ** 64 - 1, "MAX"), (2 ** 63 - 1, "HALF"), (2 ** 53 + 1, "ODD"), (7, "SEVEN"))),
